@@ -120,7 +120,9 @@ type simLlamaWorld struct {
 	// onCloseInUse is called when Close starts while a Completion whose request context is
 	// still live is in progress on the runner (C01 seen from the HTTP layer)
 	onCloseInUse func(s *simLlama, n int)
-	now          func() time.Duration
+	// tokenizeErr lets a harness fail a Tokenize call (the runner went away)
+	tokenizeErr func(content string) error
+	now         func() time.Duration
 }
 
 //go:norace
@@ -220,6 +222,11 @@ func (s *simLlama) Tokenize(ctx context.Context, content string) ([]int, error) 
 	verifsim.Yield("sim:tokenize")
 	if s.closed > 0 {
 		return nil, errors.New("sim: runner closed")
+	}
+	if s.w.tokenizeErr != nil {
+		if err := s.w.tokenizeErr(content); err != nil {
+			return nil, err
+		}
 	}
 	toks := make([]int, 0, len(content)/4+1)
 	for i := 0; i < len(content); i += 4 {
